@@ -105,7 +105,11 @@ pub fn diff_source_budget(prog: &BlockStmt, src: String, vm_budget: u64, ref_bud
     // changes what a program means shows as a mismatch (a different tree with the same behaviour is unobservable).
     let tree_differs = match std::panic::catch_unwind(|| nederlang::parser::parse(&src)) {
         Ok(Ok(tree)) => format!("{tree:?}") != format!("{prog:?}"),
-        _ => true,
+        // A text that the parser REFUSES is not judged here: generated programs can nest deeper than the front end
+        // allows (a resource limit, U17), and whether a valid text is accepted at all is C07's question.
+        Ok(Err(_)) => return DiffOut { src, verdict: Verdict::Discard("printed text is refused by the parser (nesting limit, or see C07)".into()), refobs: None, obs: None, tree_differs: true },
+        // (a panicking parser is judged: the run below reports it)
+        Err(_) => true,
     };
     let r = run_reference(prog, ref_budget);
     let o = run_eval(&src, &RunCfg { budget: vm_budget, audit_heap: true });
